@@ -323,8 +323,7 @@ Unexplained(km, out, ideal, allow) ==
          [] ei.k = "ipfix" /\ IxItemConf(km, ei) -> {<<"C05", "ipfix", "structure", ok>>}
          [] ei.k = "ipfix" /\ ok = "ipfix" /\
               (\E d \in 1..Len(ei.dropped) : ei.dropped[d].why = "unknown-template" /\
-                  \E s \in 1..Len(out[i].sets) : out[i].sets[s].id = ei.dropped[d].id
-                                                  /\ out[i].sets[s].k \in {"data", "odata"})
+                  \E s \in 1..Len(out[i].sets) : out[i].sets[s].id = ei.dropped[d].id)    \* reported, as whatever kind
               -> {<<"C07", "ipfix", "unknown-template", ok>>}
          [] OTHER -> {}
 
